@@ -207,13 +207,37 @@ def deactivated(nl):
     return {"ref": nl["ref"], "branches": out}
 
 
+def conducts(b):
+    """True if the (deactivated) branch can carry current."""
+    z, y = immittance(b)
+    if y is None:          # zero impedance
+        return True
+    return bool(y)
+
+
 def port_impedance(nl, a, b_):
     """Exact driving-point impedance between nodes a and b: deactivate sources, inject
-    1 A from b into a, read phi(a)-phi(b).  Returns GQ, or None if infinite/undefined."""
+    1 A from b into a, read phi(a)-phi(b).  Parts of the network that are connected to
+    the port only through non-conducting (open) branches carry no current and are
+    dropped first.  Returns GQ, "inf" if no conducting path joins a and b, or None if
+    the conducting part is itself singular (not in the domain)."""
     if a == b_:
         return ex.ZERO
     d = deactivated(nl)
-    d = {"ref": b_, "branches": d["branches"] + [[b_, a, "I", "__test__", [1]]]}
+    cond = [b for b in d["branches"] if conducts(b)]
+    comp = {a}
+    grew = True
+    while grew:
+        grew = False
+        for b in cond:
+            if (b[0] in comp) != (b[1] in comp):
+                comp.add(b[0])
+                comp.add(b[1])
+                grew = True
+    if b_ not in comp:
+        return "inf"
+    keep = [b for b in cond if b[0] in comp and b[1] in comp]
+    d = {"ref": b_, "branches": keep + [[b_, a, "I", "__test__", [1]]]}
     s = solve(d)
     if s is None:
         return None
